@@ -179,10 +179,10 @@ type Evaluator struct {
 	// (no re-association, no distribution), so that two values are the same term only if they are
 	// computed by the same sequence of roundings. Only rewrites that are exact in IEEE-754 are
 	// applied: commutativity of + and *, x − y = x + (−y), −(−x) = x.
-	faithful      bool
-	unroll        bool   // execute counted loops with constant bounds iteration by iteration
-	ctx           string // calling context (chain of call sites)
-	siteObjs      map[string]*Obj
+	faithful bool
+	unroll   bool   // execute counted loops with constant bounds iteration by iteration
+	ctx      string // calling context (chain of call sites)
+	siteObjs map[string]*Obj
 }
 
 var nmuGlobal int
